@@ -1,24 +1,27 @@
-use palette::{FromColor, Hsluv, Lchuv, Luv, white_point::D65, convert::FromColorUnclamped};
 fn main() {
-    for l in [0.0f64, 1e-9, 1e-7, 100.0 - 1e-7, 100.0 - 1e-9, 100.0] {
-        let mut nan = 0; let mut inf = 0; let mut big = 0; let mut maxc: f64 = 0.0; let mut minc: f64 = 1e300;
-        for hi in 0..3600 {
-            let h = hi as f64 * 0.1;
-            let c = Lchuv::<D65, f64>::from_color_unclamped(Hsluv::<D65, f64>::new(h, 100.0, l));
-            if c.chroma.is_nan() { nan += 1 } else if c.chroma.is_infinite() { inf += 1 } else { maxc = maxc.max(c.chroma); minc = minc.min(c.chroma); }
-            let s = Hsluv::<D65, f64>::from_color_unclamped(Lchuv::<D65, f64>::new(l, 0.0, h));
-            if !s.saturation.is_finite() { big += 1 }
+    let ok = pv::reference::spaces::linsrgb_to_oklab([0.0,0.0,1.0]);
+    let h0 = ok[2].atan2(ok[1]);
+    for d in [-0.2, -0.1, -0.03, -1e-2, -1e-3, -1e-5] {
+        let h: f64 = h0 + d;
+        let (a,b) = (h.cos(), h.sin());
+        let (k0,k1,k2,k3,k4) = (1.19086277, 1.76576728, 0.59662641, 0.75515197, 0.56771245);
+        let (wl,wm,ws) = (4.0767416621, -3.3077115913, 0.2309699292);
+        let mut s = k0 + k1 * a + k2 * b + k3 * a * a + k4 * a * b;
+        let k_l = 0.3963377774 * a + 0.2158037573 * b;
+        let k_m = -0.1055613458 * a - 0.0638541728 * b;
+        let k_s = -0.0894841775 * a - 1.2914855480 * b;
+        print!("d {:e}: poly {} ", d, s);
+        for _ in 0..5 {
+            let (l_, m_, s_) = (1.0 + s * k_l, 1.0 + s * k_m, 1.0 + s * k_s);
+            let (l, m, sv) = (l_ * l_ * l_, m_ * m_ * m_, s_ * s_ * s_);
+            let (l_ds, m_ds, s_ds) = (3.0 * k_l * l_ * l_, 3.0 * k_m * m_ * m_, 3.0 * k_s * s_ * s_);
+            let (l_ds2, m_ds2, s_ds2) = (6.0 * k_l * k_l * l_, 6.0 * k_m * k_m * m_, 6.0 * k_s * k_s * s_);
+            let f = wl * l + wm * m + ws * sv;
+            let f1 = wl * l_ds + wm * m_ds + ws * s_ds;
+            let f2 = wl * l_ds2 + wm * m_ds2 + ws * s_ds2;
+            s -= f * f1 / (f1 * f1 - 0.5 * f * f2);
+            print!("-> {} (f {:e}) ", s, f);
         }
-        println!("l={:e}: Hsluv(h,100,l)->Lchuv chroma nan={} inf={} finite range [{:e},{:e}];  Lchuv(l,0,h)->Hsluv nonfinite={}", l, nan, inf, minc, maxc, big);
+        println!();
     }
-    let s = Hsluv::<D65, f64>::from_color_unclamped(Lchuv::<D65, f64>::new(100.0, 0.0, 90.0));
-    println!("{:?}", s);
-    let s = Hsluv::<D65, f32>::from_color_unclamped(Lchuv::<D65, f32>::new(100.0, 0.0, 90.0));
-    println!("{:?}", s);
-    let s = Lchuv::<D65, f32>::from_color_unclamped(Hsluv::<D65, f32>::new(0.0, 100.0, 0.0));
-    println!("{:?}", s);
-    let s = Hsluv::<D65, f64>::from_color_unclamped(Luv::<D65, f64>::new(100.0, 0.0, 0.0));
-    println!("{:?}", s);
-    let s = Hsluv::<D65, f64>::from_color_unclamped(Luv::<D65, f64>::new(0.0, 0.0, 0.0));
-    println!("{:?}", s);
 }
